@@ -1118,12 +1118,15 @@ def _git_reads_dulwich_files(ctx, git, structs, n):
             ctx.oracle_fail("git.reads-dulwich.files", case, f"git cannot read the file dulwich wrote: {got[1]}", cls)
         elif got != want:
             if len(got) == len(want) and all(g[0] == w[0] for g, w in zip(got, want)):
-                classes = {value_class(w[1]) for g, w in zip(got, want) if g != w}
-                classes = {c if c in ("value:semicolon-unquoted", "value:cr") else None for c in classes}
-                cls = classes.pop() if len(classes) == 1 else None
+                # one report per differing entry, classified by its own value
+                for g, w in zip(got, want):
+                    if g != w:
+                        c = value_class(w[1])
+                        ctx.oracle_fail("git.reads-dulwich.files", dict(case, value=hx(w[1])),
+                                        f"git reads {g[1]!r} for {w[0]!r} where dulwich wrote {w[1]!r}",
+                                        c if c in ("value:semicolon-unquoted", "value:cr") else None)
             else:
-                cls = None
-            ctx.oracle_fail("git.reads-dulwich.files", case, f"git lists {got!r}, dulwich wrote {want!r}"[:600], cls)
+                ctx.oracle_fail("git.reads-dulwich.files", case, f"git lists {got!r}, dulwich wrote {want!r}"[:600], None)
 
 
 def _dulwich_reads_git(ctx, git, items):
